@@ -197,6 +197,20 @@ CLAIMS = {
              "tokens) is sent as external event and a subset raised internally; TLC checks for every received event that "
              "the transition the interpreter selected is the one Sem.NameMatch prescribes. Bounded-exhaustive over the alphabet.",
         note=CORE_NOTE + " The reader's descriptor normalisation is part of what is checked."),
+    "C20": dict(
+        category="model_checking", design_ref="4/C20",
+        technique="TLC model checking of Http.tla (request handler + concurrent clients) + trace validation of recorded HTTP scenarios with Http!Handle (TraceC20.tla)",
+        text="Http.tla specifies the request handler (Handle: answer and enqueued event of a POST) and is model-checked with "
+             "concurrent clients posting all pairs of seven request shapes (ExactlyAccepted, RepliesTruthful, PerClientOrder, Faithful). "
+             "Against the real server (rocket inside the harness process) requests of seven kinds (plain, with parameters, with "
+             "_content, without event name, wrongly spelled name field, unknown numeric session, non-numeric session) are posted for 22 "
+             "tokens needing URL encoding (blank, &, =, +, %, #, ?, /, quotes, accented, CJK, astral, combining) with blanks spelled "
+             "'+' and '%20', sequentially and from concurrent client threads; a second session sends events with typed parameters "
+             "through <send type=BasicHTTP> to the location the receiver published in _ioprocessors. TraceC20.tla applies Http!Handle "
+             "to every recorded request: status class, exactly one event per accepted request with exactly the expected data, nothing "
+             "for rejected ones, no spurious event, per-client order, textual parameter values.",
+        note="The port 5555 is hard-coded in BasicHTTPEventIOProcessor::new: scenarios run one at a time under a file lock and a busy port "
+             "is a tool error (exit 2). Requests with duplicate field names or with both _content and other fields are not generated."),
 }
 
 NOT_YET = {
